@@ -4,7 +4,7 @@ From Path Require Import PathSpec PathModel FsSpec FsModel FsListSpec.
 Extraction Language OCaml.
 Extraction "model.ml" anchor
   getDirectoryName getBaseName getStem getExtension simplifyPath isAbsolutePath getRelativePath
-  spec_dir spec_base spec_stem spec_ext spec_base_ext spec_is_absolute canon rel_hyp rel_joined
+  spec_dir spec_base spec_stem spec_ext spec_base_ext spec_is_absolute canon rel_hyp rel_hyp_wide rel_joined
   init_state k_mkdir k_mkfile k_symlink f_open f_close f_size f_read f_readAll f_write f_seek f_unlink f_symlink
   f_rename f_copy f_copy_o d_exists d_create create_fuel d_unlink unlink_fuel resolve k_lstat k_stat
   f_flush f_exists f_readAll_path cwd_text f_absolute d_change d_open d_close d_read d_read_all read_all_fuel
